@@ -49,7 +49,9 @@ func c14keys(thorough bool) []c14key {
 		{strColl, strColl}, // integer in the same bucket as string "s"
 	}
 	if thorough {
-		ks = append(ks, lit("[1 2]", "[1 2]"), lit("99", "99")) // 99 = 'c' as a number: same bucket as the char
+		// (not the integer 99: it compares equal to the character 'c', so by the language's own key equality it is
+		// the same key, not a colliding one)
+		ks = append(ks, lit("[1 2]", "[1 2]"), lit("b:", "b"))
 	}
 	return ks
 }
@@ -101,7 +103,7 @@ type kv struct{ k, v int }
 
 func c14kind(k int) string {
 	switch k {
-	case 0:
+	case 0, 8:
 		return "symbol"
 	case 1:
 		return "string"
@@ -297,7 +299,7 @@ func init() {
 			"state key = KeyOrder + NumKeys + bucket dump; after every step the observer battery (len, keys, hget, hget-default, hpair i, range, str, json, msgpack, ==) " +
 			"is compared with an ordered-map model and a twin hash built by plain insertion; distinct_nontrivial = distinct observer vectors",
 		Assumptions: []string{
-			"key universe: symbol, string, int, char, one-element array, int colliding with the symbol's bucket, int colliding with the string's bucket (thorough: + two-element array, int colliding with the char)",
+			"key universe: symbol, string, int, char, one-element array, int colliding with the symbol's bucket, int colliding with the string's bucket (thorough: + two-element array, a second symbol)",
 			"values 1 and 2; observers run after the last operation of each history (prefixes are histories of their own)",
 			"a one-element array key denotes its element (documented unwrap in HashSet/HashGet)",
 		},
